@@ -76,7 +76,7 @@ def run(ctx):
     ctx.exhaustive = True
     ctx.rule = ("every single field choice and every pair of field choices of the fixture class (22 annotated shapes) enumerated by TLC; distinct = assignments; "
                 "non-trivial = the assignment overrides a container, enum, nested or tuple field")
-    ctx.assumptions += ["one level of generic containers (as documented)", "None for nested Serializable fields is outside the documented shapes", "the abstraction function Python value -> term is trusted"]
+    ctx.assumptions += ["one level of generic containers (as documented)", "None for nested Serializable fields is outside the documented shapes (used only for the failed exports that precede every third round trip)", "the abstraction function Python value -> term is trusted"]
     consts = "CONSTANT Pairs = TRUE\n"
     wd = T.workdir("c15")
     try:
@@ -101,6 +101,18 @@ def run(ctx):
                 x = fresh()
                 for ov in d:
                     setattr(x, ov["f"], CT.concretise(ov["v"]))
+                if len(rows) % 3 == 0:
+                    # history: an export attempted while a field was still unconvertible (an object exported half-built); the field is then given a value of
+                    # its annotated type, and from there on the property applies to x
+                    for bad_f, bad_v in (("ln", 5), ("n", None), ("dn", {"k": None}), ("e", 77)):
+                        keep = getattr(x, bad_f)
+                        setattr(x, bad_f, bad_v)
+                        for export in (x.toJson, x.dumps):
+                            try:
+                                export()
+                            except Exception:
+                                pass
+                        setattr(x, bad_f, keep)
                 j = x.toJson()
                 json.dumps(j)
                 y = Doc.fromJson(j)
